@@ -437,10 +437,17 @@ def report_and_exit(prop, ev, violations, files_dirs=None):
         if v.signature in seen_sigs:
             continue
         seen_sigs.add(v.signature)
+        try:
+            from . import checks
+            v.replay = checks.minimise(v)
+        except HarnessError:
+            pass
         path = write_replay(v, (files_dirs or {}).get(id(v)))
         print(f"VIOLATION property={prop} replay={path}")
         print(f"  clause={v.clause} signature={v.signature}")
         print(f"  detail={v.detail[:600]}")
+        if isinstance(v.replay, dict) and v.replay.get("minimised"):
+            print(f"  minimised={v.replay['minimised']}")
         code = 1
     ev.write()
     return code
